@@ -58,6 +58,22 @@ Theorem C17_done_exactly_first : forall f p0 before p after,
 Proof. exact done_exactly_first. Qed.
 Print Assumptions C17_done_exactly_first.
 
+(* the same clause on the model itself (composition with C17_refines) *)
+Theorem C17_done_exactly_first_model : forall f p0 before p after,
+  Forall wf_pkt (p0 :: before ++ [p] ++ after) ->
+  has_pusi p0 = true -> unit_ok p0 ->
+  Forall (fun q => has_pusi q = false /\ unit_ok q) (before ++ [p]) ->
+  (forall j, (j <= length before)%nat -> f (bytes_of (firstn (S j) (p0 :: before))) = (false, None)) ->
+  f (bytes_of (p0 :: before ++ [p])) = (true, None) ->
+  exists outs,
+    run f new_acc (map OWrite (p0 :: before ++ [p] ++ after) ++ [OBytes; OPackets]) = Ok outs /\
+    map abs_out outs
+    = map (fun _ => SWrite None) (p0 :: before) ++ [SWrite (Some E.AccumulatorDone)]
+      ++ map (fun _ => SWrite (Some E.AccumulatorDone)) after
+      ++ [SBytes (bytes_of (p0 :: before ++ [p])); SPackets (p0 :: before ++ [p])].
+Proof. exact done_exactly_first_model. Qed.
+Print Assumptions C17_done_exactly_first_model.
+
 (* refused once complete (model level): error, count 0, state untouched *)
 Theorem C17_done_refuses : forall f a pkt, state a = stateDone ->
   write_packet f a pkt = Ok (a, (0%Z, Some E.AccumulatorDone)).
